@@ -105,8 +105,27 @@ def real_build(g):
         return ('internal',)
 
 
+class StepBudget(Exception):
+    pass
+
+
+class CountingDict(dict):
+    """action table that bounds the number of parser steps (LrParser.parse has no loop bound of its own)"""
+    budget = 0
+
+    def __contains__(self, k):
+        self.budget -= 1
+        if self.budget < 0:
+            raise StepBudget()
+        return dict.__contains__(self, k)
+
+
 def real_parse(parser, typs):
+    """OkV(value) | Diag (ParserException) | Internal (other exception, or no result within 5000 steps)"""
     _, _, _, PE, _, _, _ = _mods()
+    if not isinstance(parser.action_table, CountingDict):
+        parser.action_table = CountingDict(parser.action_table)
+    parser.action_table.budget = 5000
     try:
         return OkV(parser.parse(ListLexer(typs)))
     except PE:
